@@ -705,6 +705,10 @@ class Engine:
         return a is b or (isinstance(a, (bool, int, str)) and type(a) is type(b) and a == b and isinstance(a, bool))
 
     def equals(self, a, b):
+        if hasattr(a, 'vc_eq'):
+            return a.vc_eq(self, b)
+        if hasattr(b, 'vc_eq'):
+            return b.vc_eq(self, a)
         if not self._has_sym(a) and not self._has_sym(b):
             if isinstance(a, Obj) or isinstance(b, Obj):
                 return self.obj_equals(a, b)
@@ -1087,6 +1091,8 @@ class Engine:
             if i == len(node.ops) - 1:
                 if isinstance(r, bool):
                     return r
+                if not z3.is_expr(r):
+                    return r        # elementwise comparison of arrays
                 return concretize(Sym(r, BOOL))
             if not self.branch(r):
                 return False
@@ -1820,6 +1826,13 @@ class Engine:
         elif isinstance(target, ast.Subscript):
             base = self.eval(target.value, fr)
             if isinstance(target.slice, ast.Slice):
+                if hasattr(base, 'vc_setslice'):
+                    lo = self.eval(target.slice.lower, fr) if target.slice.lower is not None else None
+                    hi = self.eval(target.slice.upper, fr) if target.slice.upper is not None else None
+                    return base.vc_setslice(self, lo, hi, v, target)
+                if isinstance(base, list) and target.slice.lower is None and target.slice.upper is None:
+                    base[:] = self.iterate_concrete(v)
+                    return
                 raise Unsupported('slice assignment')
             idx = self.eval(target.slice, fr)
             self.setitem(base, idx, v, target)
